@@ -829,6 +829,11 @@ def check_outcome(I: Interp, o: Outcome, c, pre: State, invs, fn, selfcls):
     node = fn
     if o.kind in ("break", "continue"):
         raise Unsupported("break/continue escaping the function body")
+    # in a contract a PARAMETER name denotes the argument the caller passed (its current content, if it is a mutable
+    # object), not whatever the body may have re-bound the local name to (`y = np.copy(y)`)
+    for pname in c.params:
+        if pname in pre.env:
+            st.env[pname] = pre.env[pname]
     if o.kind in ("normal", "return"):
         val = o.value if o.kind == "return" else NONE
         st.env["result"] = val if val is not None else NONE
